@@ -71,6 +71,71 @@ pub fn io_host_space() -> Vec<StructProg> {
     out
 }
 
+/// The same struct reached from several module-scope variables in different address spaces, in both
+/// declaration orders, directly / through an array / nested in another struct.
+pub fn multi_var_space() -> Vec<StructProg> {
+    use wgslgen::{Member, Scalar, StructDef, Ty};
+    let f = Scalar::F32;
+    let shapes: Vec<(&str, Vec<Member>)> = vec![
+        ("vec3", vec![Member::plain("pos", Ty::Vec(3, f))]),
+        ("vec3-f32", vec![Member::plain("pos", Ty::Vec(3, f)), Member::plain("w", Ty::Scalar(f))]),
+        ("f32-vec4", vec![Member::plain("k", Ty::Scalar(f)), Member::plain("v", Ty::Vec(4, f))]),
+        ("inner", vec![Member::plain("inner", Ty::Struct(INNER.into())), Member::plain("n", Ty::Scalar(Scalar::U32))]),
+        ("mat3", vec![Member::plain("m", Ty::Mat(3, 3, f))]),
+    ];
+    let spaces = ["private", "workgroup", "storage", "uniform"];
+    let decl = |space: &str, name: &str, ty: &str, binding: &mut u32| -> String {
+        match space {
+            "private" => format!("var<private> {name}: {ty};\n"),
+            "workgroup" => format!("var<workgroup> {name}: {ty};\n"),
+            "storage" => {
+                *binding += 1;
+                format!("@group(0) @binding({}) var<storage, read_write> {name}: {ty};\n", *binding - 1)
+            }
+            _ => {
+                *binding += 1;
+                format!("@group(0) @binding({}) var<uniform> {name}: {ty};\n", *binding - 1)
+            }
+        }
+    };
+    let mut out = vec![];
+    for (sname, members) in &shapes {
+        for a in spaces {
+            for b in spaces {
+                for reach in ["direct", "array", "nested"] {
+                    // uniform arrays need 16-byte strides; keep the array reach for the non-uniform spaces
+                    if reach == "array" && (a == "uniform" || b == "uniform") {
+                        continue;
+                    }
+                    let mut env = base_env();
+                    env.add(StructDef { name: "Root".into(), members: members.clone() });
+                    env.add(StructDef { name: "Holder".into(), members: vec![Member::plain("head", Ty::Vec(4, f)), Member::plain("item", Ty::Struct("Root".into()))] });
+                    let mut src = String::new();
+                    let mut refs = vec![];
+                    Ty::Struct("Holder".into()).struct_refs(&env, &mut refs);
+                    for n in env.order.clone() {
+                        if refs.contains(&n) && (n != "Holder" || reach == "nested") {
+                            src.push_str(&env.get(&n).wgsl(true));
+                        }
+                    }
+                    let first_ty = match reach {
+                        "direct" => "Root".to_string(),
+                        "array" => "array<Root, 2>".to_string(),
+                        _ => "Holder".to_string(),
+                    };
+                    let mut binding = 0;
+                    src.push_str(&decl(a, "first_var", &first_ty, &mut binding));
+                    src.push_str(&decl(b, "second_var", "Root", &mut binding));
+                    src.push_str("@compute @workgroup_size(1) fn main() {\n}\n");
+                    let root = if reach == "nested" { "Holder" } else { "Root" };
+                    out.push(StructProg { key: format!("multi-var|{sname}|{a}-then-{b}|{reach}"), env, root: root.into(), space: "storage", src });
+                }
+            }
+        }
+    }
+    out
+}
+
 fn cfg_for(repr: Repr) -> Config {
     Config { bytemuck_host: true, repr, ..Config::default() }
 }
@@ -224,6 +289,7 @@ pub fn run(tier: &str) -> i32 {
     let thorough = rep.thorough();
     let mut progs = struct_space(true, true, true, false);
     progs.extend(io_host_space());
+    progs.extend(multi_var_space());
     // ---- (a) whole space x 3 representations
     let reprs = [Repr::Rust, Repr::Glam, Repr::Nalgebra];
     let items: Vec<(usize, Repr)> = (0..progs.len()).flat_map(|i| reprs.iter().map(move |r| (i, *r))).collect();
@@ -269,7 +335,7 @@ pub fn run(tier: &str) -> i32 {
     let mut index: BTreeMap<String, (usize, Repr)> = BTreeMap::new();
     for (k, ((i, r), (text, _))) in items.iter().zip(res.iter()).enumerate() {
         let p = &progs[*i];
-        let forced = p.key.starts_with("attr|") || (p.key.starts_with("io-host|") && k % 5 == 0) || p.key.starts_with("s2|vec3<f32>|f32") || p.key.starts_with("s2|f32|vec3<f32>");
+        let forced = p.key.starts_with("attr|") || (p.key.starts_with("io-host|") && k % 5 == 0) || (p.key.starts_with("multi-var|") && k % 11 == 0) || p.key.starts_with("s2|vec3<f32>|f32") || p.key.starts_with("s2|f32|vec3<f32>");
         if !(k % stride == 0 || (forced && !thorough && *r != Repr::Nalgebra)) {
             continue;
         }
